@@ -1047,3 +1047,37 @@ def value_select(ctx, se, t):
             return None
         return opt[2][0], x, e
     return None
+
+
+# ----------------------------------------------------------------------------- shared obligations
+
+class Refile:
+    """Reporter adapter: runs another property's rule and files the selected obligations
+    (by rule name and by function) under a rule of the calling property.  Used where a clause
+    of one property has, as a necessary condition, something another property's rule decides."""
+
+    def __init__(self, rep, rule, keep_rules=None, fn_pred=None):
+        self.rep, self.rule, self.keep, self.fn_pred = rep, rule, keep_rules, fn_pred
+
+    def _take(self, rule, fn):
+        if self.keep is not None and rule not in self.keep:
+            return False
+        if self.fn_pred is not None and not self.fn_pred(fn or ""):
+            return False
+        return True
+
+    def check(self, cond, rule, fn, role, a, b, loc=None):
+        if self._take(rule, fn):
+            return self.rep.check(cond, self.rule, fn, rule + ":" + role, a, b, loc)
+
+    def violation(self, rule, fn, role, d, loc=None):
+        if self._take(rule, fn):
+            return self.rep.violation(self.rule, fn, rule + ":" + role, d, loc)
+
+    def ok(self, rule, fn, role, d="", loc=None):
+        if self._take(rule, fn):
+            return self.rep.ok(self.rule, fn, rule + ":" + role, d, loc)
+
+    def undecided(self, rule, fn, role, d, loc=None):
+        if self._take(rule, fn):
+            return self.rep.undecided(self.rule, fn, rule + ":" + role, d, loc)
